@@ -16,6 +16,6 @@ def run(tier, seed):
     lines_universe(rep, "vf.oracles2:c18_options", tier, "RendererHTML", "xhtmlOut/breaks/langPrefix/highlight leave tokens untouched and change HTML only in their documented place", cfgs=["commonmark", "js-default"], wrapped=False)
     rep.explanation = ("Mixed. Deductive (when the reads back end ran): READS obligations - the parse side reads none of xhtmlOut/breaks/langPrefix/highlight; the renderer reads them only in the documented functions. "
                        "Bounded: the embedding clause and the option-inertness relations on the real API.")
-    rep.trusted_base = STD_TRUST
-    rep.assumptions = []
+    rep.trusted_base += STD_TRUST
+    rep.assumptions += []
     return rep
